@@ -47,6 +47,14 @@ def main(tier, seed, replay=None):
         else:
             c = gen_problem(rng, ctor=ctor, quant=None, family=rng.choice(["exp3", "shared", "cosmix", "exp2c", "gaussc"]))
             c["ops"] = states.observe_at(rng, c, nsets=2) + [["into_seq"], ["observe"], ["jac_quiet"]]
+        if i % 5 == 2 and c["meta"]["family"] in ("exp3", "shared", "cosmix", "exp2c", "exp2", "exp1l"):
+            # parameters at which the model evaluates to non-finite values (overflow), reached after good ones and followed by
+            # good ones: the rejected state must look the same in both flavours
+            bad = [hx(v, c["scalar"]) for v in ([-3000.0] * c["meta"]["P"] if c["meta"]["family"] != "exp2c" and c["meta"]["family"] != "exp1l"
+                                                else [-1e-3] * c["meta"]["P"])]
+            good = c["model"]["init"]
+            c["ops"] = [o for o in c["ops"]]
+            c["ops"][3:3] = [["set", bad], ["observe"], ["jac_quiet"], ["set", good], ["observe"], ["jac_quiet"]]
         if i % 5 == 4:
             # a failing derivative: absent Jacobian under every schedule
             c["faults"] = {"deriv": [[rng.randrange(c["meta"]["P"]), 0]]}
